@@ -186,6 +186,30 @@ func newE2(params json.RawMessage) *e2Machine {
 			}
 		}
 	}
+	if p.Prefix == "created" {
+		// client 0 has created every key and pushed one operation; the other clients have not opened anything yet
+		c := m.cls[0]
+		for _, k := range p.Keys {
+			if v := m.Apply(pt.Action{Op: "open", R: 0, T: k, K: "soc"}); v != nil {
+				m.fatal = v
+				return m
+			}
+			sync := pt.Action{Op: "sync", R: 0}
+			if p.Exchange == "pack" {
+				sync = pt.Action{Op: "xchg", R: 0, T: k, K: "ok"}
+			}
+			if v := m.Apply(sync); v != nil {
+				m.fatal = v
+				return m
+			}
+			w := &World{P: WParams{Type: c.typ}, typ: typeOf(c.typ), reps: []*Replica{c.dts[k].rep}}
+			w.Local(localCalls(w, 0, "")[0])
+			if v := m.Apply(sync); v != nil {
+				m.fatal = v
+				return m
+			}
+		}
+	}
 	if p.Prefix == "joined" || p.Prefix == "long" {
 		for _, c := range m.cls {
 			for _, k := range p.Keys {
